@@ -36,3 +36,83 @@ Fixpoint eqbl (a b : list bool) : bool :=
 Definition run_txctx (k : case_txctx) : option (list bool) :=
   let m := run true (map dec (fst k)) in
   if eqbl m (snd k) then None else Some m.
+
+(* ------------------------------------------------------------------ *)
+(* Clause 4 with transaction identity (audit 2026-09-29): executions of one flow
+   by several transactions OVERLAP. Begin t = transaction t enters the flow,
+   Use2 t = a processor run by t asks for the flow's transactional context,
+   Clean2 t = t leaves the flow (Flow.CleanExecution -> DestroyTransactionalContext).
+   The implementation has ONE slot per flow for all of them; the ghost component
+   [running] remembers, for every transaction inside the flow, what the slot
+   looked like when it entered - the state it "still uses". *)
+Inductive op2 := Begin (t : Z) | Use2 (t : Z) | Clean2 (t : Z).
+
+Record st2 := mkSt2 { present2 : bool; running : list (Z * bool) }.
+
+Definition init2 : st2 := mkSt2 true [].
+
+Fixpoint drop_txn (t : Z) (l : list (Z * bool)) : list (Z * bool) :=
+  match l with
+  | [] => []
+  | (u, b) :: r => if Z.eqb u t then drop_txn t r else (u, b) :: drop_txn t r
+  end.
+
+Fixpoint snapshot (t : Z) (l : list (Z * bool)) : option bool :=
+  match l with
+  | [] => None
+  | (u, b) :: r => if Z.eqb u t then Some b else snapshot t r
+  end.
+
+Definition step2 (s : st2) (o : op2) : st2 * option (Z * bool) :=
+  match o with
+  | Begin t => (mkSt2 (present2 s) ((t, present2 s) :: drop_txn t (running s)), None)
+  | Use2 t => (s, Some (t, present2 s))
+  | Clean2 t => (mkSt2 false (drop_txn t (running s)), None)
+  end.
+
+Fixpoint run2 (s : st2) (ops : list op2) : list (Z * bool) :=
+  match ops with
+  | [] => []
+  | o :: r => let '(s', out) := step2 s o in
+              match out with Some b => b :: run2 s' r | None => run2 s' r end
+  end.
+
+(* isolation, per observation: what a running transaction gets is what the slot
+   was when it entered the flow (nobody else's execution changed it) *)
+Fixpoint iso_ok (s : st2) (ops : list op2) : bool :=
+  match ops with
+  | [] => true
+  | o :: r =>
+      (match o with
+       | Use2 t => match snapshot t (running s) with
+                   | Some b => eqb b (present2 s)
+                   | None => true
+                   end
+       | _ => true
+       end) && iso_ok (fst (step2 s o)) r
+  end.
+
+(* the interference itself: a Clean by u while the slot is populated and some
+   OTHER transaction is inside the flow *)
+Definition foreign_running (u : Z) (l : list (Z * bool)) : bool :=
+  existsb (fun p => negb (Z.eqb (fst p) u)) l.
+
+Fixpoint no_overlap_clear (s : st2) (ops : list op2) : bool :=
+  match ops with
+  | [] => true
+  | o :: r =>
+      (match o with
+       | Clean2 u => negb (present2 s && foreign_running u (running s))
+       | _ => true
+       end) && no_overlap_clear (fst (step2 s o)) r
+  end.
+
+(* correspondence suite txctx2: ops encoded (kind, txn), kind 0 = Use, 1 = Clean,
+   2 = Begin; observed = for every Use whether the real flow
+   (Flow.GetExecutionContext().GetTransactionalContext(), Flow.CleanExecution)
+   returned non-nil *)
+Definition dec2 (k : Z * Z) : op2 :=
+  if Z.eqb (fst k) 0 then Use2 (snd k) else if Z.eqb (fst k) 1 then Clean2 (snd k) else Begin (snd k).
+Definition run_txctx2 (k : case_txctx) : option (list bool) :=
+  let m := map snd (run2 init2 (map dec2 (fst k))) in
+  if eqbl m (snd k) then None else Some m.
